@@ -1,6 +1,7 @@
 pub mod bridge;
 pub mod crash;
 pub mod engine;
+pub mod fuzzing;
 pub mod gamemodel;
 pub mod gen;
 pub mod props;
